@@ -346,10 +346,13 @@ def K(n):
 _HOST_UNBOUND = {"pos": "function", "params": ["a"], "body": [
     ["if", V("a"), [["assign", "x", K(1)]], []], ["if", V("a"), [["print", V("x")]], []]]}
 
-# The defects of the unchanged tree. `witness` is the located program of the `_refuted` lemma in
-# coq/C03/Witnesses.v: the harness checks on every run (inside Coq) that it is this replay.
+# The defects found on the tree as it was. `witness` is the located program of the `_refuted` lemma in
+# coq/C03/Witnesses.v: the harness checks on every run (inside Coq) that it is this replay. Entries with
+# `fixed` = (commit, what failed) are fixed in /repo: their replays are corpus cases (corpus/C03/) that must pass,
+# the model compares the code with the repaired discipline (coq/C03/Current.v), and a code that behaves like the
+# as-found discipline again disagrees with the model (unexplained => VIOLATION).
 KNOWN = [
-    {"id": "C03-nested-conditional", "defect": "restore", "witness": "w_nested", "lemma": "C03_nested_conditional_refuted",
+    {"id": "C03-nested-conditional", "fixed": ("25782e7", "leaving a nested if/while/for reset `conditional`: a conditionally written name was returned but not passed (UnboundLocalError in the new function)"), "defect": "restore", "witness": "w_nested", "lemma": "C03_nested_conditional_refuted",
      "title": "extract: leaving a nested if/while/for resets `conditional`, a conditionally written name is "
               "returned but not passed (UnboundLocalError in the new function)",
      "host": {"pos": "function", "params": ["a", "b"], "body": [
@@ -357,7 +360,7 @@ KNOWN = [
          ["if", V("a"), [["if", V("b"), [["pass"]], []], ["assign", "x", K(1)]], []],
          ["print", V("x")]]},
      "path": [], "i": 1, "j": 2, "vecs": [[0, 0], [1, 0], [1, 1]]},
-    {"id": "C03-postwritten-branch", "defect": "killnest", "witness": "w_branch", "lemma": "C03_postwritten_branch_refuted",
+    {"id": "C03-postwritten-branch", "fixed": ("f6cf806", "any textually later write (sibling else-branch, nested statement) hid later reads: a value computed in the region was silently not returned"), "defect": "killnest", "witness": "w_branch", "lemma": "C03_postwritten_branch_refuted",
      "title": "extract: any textually later write (sibling else-branch, nested statement) hides later reads, a "
               "value computed in the region is silently not returned",
      "host": {"pos": "function", "params": ["a"], "body": [
@@ -373,7 +376,7 @@ KNOWN = [
          ["if", V("a"), [["assign", "z", K(5)]], []],
          ["if", V("b"), [["print", V("z")]], []]]},
      "path": [], "i": 1, "j": 3, "vecs": [[0, 1], [1, 1], [0, 0]]},
-    {"id": "C03-loop-depth", "defect": "balanced", "witness": "w_loopdepth", "lemma": "C03_loop_depth_refuted",
+    {"id": "C03-loop-depth", "fixed": ("c0fa7ad", "leaving a loop that starts inside the region decremented loop_depth: loop-carried writes were not returned (the host looped for ever)"), "defect": "balanced", "witness": "w_loopdepth", "lemma": "C03_loop_depth_refuted",
      "title": "extract: leaving a loop that starts inside the region decrements loop_depth, later loop-carried "
               "writes of the region are not returned (the host loops for ever)",
      "host": {"pos": "function", "params": ["a"], "body": [
@@ -399,7 +402,7 @@ KNOWN = [
           [["if", ["b", "<", K(0), V("x")], [["print", V("y")]], []], ["assign", "y", V("x")],
            ["assign", "x", ["b", "+", V("x"), K(1)]]]]]},
      "path": [[1, 0]], "i": 0, "j": 1, "vecs": [[2], [3], [1]]},
-    {"id": "C03-module-args", "defect": "globalargs", "witness": "w_module", "lemma": "C03_module_args_refuted",
+    {"id": "C03-module-args", "fixed": ("99f0982", "module-level extract passed read & postread & written: a global read and rebound in the region but not read afterwards became an unbound local"), "defect": "globalargs", "witness": "w_module", "lemma": "C03_module_args_refuted",
      "title": "extract at module level: parameters are read & postread & written, a global read and rebound in "
               "the region but not read afterwards becomes an unbound local of the new function",
      "host": {"pos": "module", "params": [], "body": [
@@ -447,12 +450,25 @@ def known_replay(k):
 
 
 def write_findings():
-    """Development utility: (re)write findings/C03-*.json and findings.d/C03.json from KNOWN."""
+    """Development utility: (re)write findings/C03-*.json, corpus/C03/*.json and findings.d/C03.json from KNOWN.
+    Open defects -> findings/ (+ findings.d open); fixed defects -> corpus/C03/ (+ findings.d fixed)."""
     import os
     from harness import common
-    entries = []
+    entries, fixed = [], []
+    os.makedirs(os.path.join(common.VERIF, "corpus", PROPERTY), exist_ok=True)
     for k in KNOWN:
         _, obj = known_replay(k)
+        old = os.path.join(common.VERIF, "findings/%s.json" % k["id"])
+        if k.get("fixed"):
+            if os.path.exists(old):
+                os.remove(old)
+            fn = "corpus/%s/%s.json" % (PROPERTY, k["id"])
+            obj["class"] = "fixed:" + k["defect"]
+            obj["fixed_by"] = k["fixed"][0]
+            with open(os.path.join(common.VERIF, fn), "w") as f:
+                json.dump(obj, f, indent=1)
+            fixed.append("fixed: property=%s %s %s; replay %s" % (PROPERTY, k["fixed"][0], k["fixed"][1], fn))
+            continue
         fn = "findings/%s.json" % k["id"]
         with open(os.path.join(common.VERIF, fn), "w") as f:
             json.dump(obj, f, indent=1)
@@ -465,7 +481,7 @@ def write_findings():
     entries.append({"property": PROPERTY, "id": KNOWN_VARIABLE["id"], "title": KNOWN_VARIABLE["title"],
                     "signature": "variable:while-condition", "replay": fn})
     with open(os.path.join(common.VERIF, "findings.d", "C03.json"), "w") as f:
-        json.dump({"open": entries, "fixed": []}, f, indent=1)
+        json.dump({"open": entries, "fixed": fixed}, f, indent=1)
 
 
 def check_witnesses(ctx):
@@ -481,7 +497,8 @@ def check_witnesses(ctx):
         ctx.count("witness_is_replay:" + v)
         if v != "true":
             ctx.violation({"kind": "witness", "id": k["id"],
-                           "broken": "the witness %s of %s is not the replay findings/%s.json" % (k["witness"], k["lemma"], k["id"])},
+                           "broken": "the witness %s of %s is not the replay %s/%s.json" % (
+                               k["witness"], k["lemma"], "corpus/C03" if k.get("fixed") else "findings", k["id"])},
                           "C03: witness of %s differs from its replay" % k["lemma"], no_input=True)
     assert len(vals) == len(KNOWN), out
 
@@ -493,7 +510,15 @@ def run(ctx):
                 "first) and 'partial'; ALL contiguous statement ranges of every block are extracted with the real "
                 "ExtractMethod; a case is non-trivial when the extraction is accepted and passes or returns at "
                 "least one name; distinct by (source, region)")
-    nhosts = ctx.scale(140, 1200)
+    ctx.assumptions += [
+        "UnboundLocalError and NameError are one outcome ('name read while unbound')",
+        "argument vectors on which the ORIGINAL host exceeds %d traced line events are not compared" % E.STEP_LIMIT,
+        "a behaviour change that the model predicts exactly (same sets, args, returns, resulting program, same "
+        "outputs as CPython before and after) and attributes to a recorded defect class is a known finding; "
+        "anything else is a violation",
+        "similar=True, global_=True and the staticmethod/classmethod kinds are not exercised",
+    ]
+    nhosts = ctx.scale(140, 1000)
     hosts = []
     check_witnesses(ctx)
     for fh in [k["host"] for k in KNOWN if k["defect"]] + SOUND_HOSTS:
